@@ -25,6 +25,13 @@ type mySlice []interface{}
 type myMap map[string]interface{}
 type myString string
 
+// a fixed-point amount: a foreign Go type that happens to have json.Number's conversion method
+type myFixed struct{ Cents int64 }
+
+func (a myFixed) Float64() (float64, error) { return float64(a.Cents) / 100, nil }
+
+var ptrFixed = &myFixed{Cents: 250}
+
 var (
 	intThree   = 3
 	intFour    = 4
@@ -73,6 +80,8 @@ var kinds = []kindT{
 	{"accessor", func() interface{} { return jsonpath.Accessor{} }},
 	{"bytes", func() interface{} { return []byte("ab") }},
 	{"rune", func() interface{} { return 'x' }},
+	{"fixed", func() interface{} { return myFixed{Cents: 150} }},
+	{"ptrfixed", func() interface{} { return ptrFixed }},
 	// a fresh pointer on every use: two occurrences are deeply equal but not identical
 	{"freshptr", func() interface{} { return &myPtrStruct{B: 9} }},
 	{"ifacestruct", func() interface{} { return myIfaceStruct{V: []int{1, 2}} }},
